@@ -140,6 +140,32 @@ func fixedWidthFn(fn *ssa.Function) (int64, bool) {
 		}
 		k = n
 	}
+	// an in-place reordering (REVERSEITEMS) must work on the padded buffer itself: reversing the
+	// variable-length source before it is copied in left-aligns it, and values whose encodings differ
+	// only in trailing zero bytes (1, 256, 65536) collide — the result is fixed-width but not injective
+	for _, b := range fn.Blocks {
+		for _, ins := range b.Instrs {
+			c, ok := ins.(*ssa.Call)
+			if !ok || len(c.Common().Args) < 2 {
+				continue
+			}
+			op, isC := c.Common().Args[0].(*ssa.Const)
+			if !isC || op.Value == nil || op.Value.Kind() != constant.String || constant.StringVal(op.Value) != "REVERSEITEMS" {
+				continue
+			}
+			arg := c.Common().Args[1]
+			if mi, isMI := arg.(*ssa.MakeInterface); isMI {
+				arg = mi.X
+			}
+			sl, isSl := arg.(*ssa.Slice)
+			if !isSl {
+				return 0, false
+			}
+			if _, isAl := sl.X.(*ssa.Alloc); !isAl {
+				return 0, false
+			}
+		}
+	}
 	return k, k > 0
 }
 
